@@ -528,8 +528,30 @@ def ok_query(P, R, rule='C11.GRD.4'):
     R.floor(rule, 3, 'results for a named service')
 
 
+def class_kept_whole(P, R, rule='C11.BND.2'):
+    """The class handed out is the rule's class value (or name): the copy into the request keeps a text of the
+    documented maximum length whole.  The destination is declared LEN+1 bytes for a LEN-character text; a bounded string
+    copy told the size is LEN stores LEN-1 characters, so its size argument is the destination's own size."""
+    from .. import bnd
+    n = 0
+    for f in P.unit_fns('modules/iauth_class.c'):
+        for s in f.calls():
+            if s.ev.get('callee') not in ('strlcpy', 'snprintf') or len(s.ev['args']) < 3:
+                continue
+            dst = s.ev['args'][0]
+            if not any(isinstance(x, dict) and x.get('k') == 'mem' and x.get('field') == 'class' for x in walk(dst)):
+                continue
+            ext = bnd.extent_of(f, dst)
+            size = const_of(s.ev['args'][2] if s.ev['callee'] == 'strlcpy' else s.ev['args'][1])
+            n += 1
+            R.ob(rule, bool(ext) and isinstance(size, int) and size == ext[0] - ext[1], s, 'the class copied into the request may be as long as the member allows (%s bytes given to %s for a %s-byte member)' % (
+                size, s.ev['callee'], (ext[0] - ext[1]) if ext else '?'), key='class-copy-size')
+    R.floor(rule, 1, 'copies of the class into the request')
+
+
 def run(P, R, tier):
     ok_query(P, R)
+    class_kept_whole(P, R)
     # the address criterion compares the prefix length the mask parser reports
     from . import c13
     from ..report import Remap
